@@ -83,6 +83,7 @@ Expected(idx, o) ==
     [] o.kind = "counts" -> [all |-> Len(idx.docs), live |-> Cardinality(Live(idx))]
     [] o.kind = "terminfo" -> [df |-> Len(PostingList(idx, o.f, o.t))]
     [] o.kind = "livekeys" -> [keys |-> ModelLive(o.ops, Len(o.ops))]
+    [] o.kind = "grouporder" -> [groups_contiguous_and_in_order |-> TRUE]
     [] OTHER -> [ok |-> TRUE]
 
 
@@ -117,6 +118,11 @@ ObsOK(idx, o) ==
     [] o.kind = "livekeys" ->     \* keys of the live documents the reader delivers, each once
          /\ ToSet(o.keys) = ModelLive(o.ops, Len(o.ops))
          /\ Cardinality(ToSet(o.keys)) = Len(o.keys)
+    [] o.kind = "grouporder" ->   \* documents added inside writer.group() stay next to one another, in order
+         LET order == [i \in DOMAIN o.order |-> o.order[i]]      \* keys of the live documents in document order
+         IN \A g \in DOMAIN o.groups :
+              LET grp == SelectSeq(o.groups[g], LAMBDA k : k \in ToSet(order))
+              IN grp = <<>> \/ \E i \in 1 .. Len(order) - Len(grp) + 1 : SubSeq(order, i, i + Len(grp) - 1) = grp
     [] o.kind = "flag" -> o.value
     [] o.kind = "error" -> FALSE
 
